@@ -199,6 +199,12 @@ def finish(ctx, fam, scripts, trace_module, mutants, features, trace_cfg=None, e
         cov['drift_model_vs_code'] = dict(grid_points=tot, disagreements=d)
         if d:
             log('DRIFT: the Verify model of Config.tla disagrees with the code on %d of %d grid points (informational)' % (d, tot))
+    if fam.get('_drift'):
+        dr = fam['_drift'](scripts, traces)
+        cov['drift_model_vs_code'] = dr
+        if dr.get('disagreements'):
+            log('DRIFT: the implementation-shaped model predicted other results than the code produced in %d of %d compared calls (informational; first: %s)'
+                % (dr['disagreements'], dr['compared'], dr.get('first')))
     if getattr(ctx, 'parts', None) is not None:
         ctx.parts.append((cov, fam['assumptions'], len(res['violations'])))
     else:
@@ -523,6 +529,36 @@ def parser_features(evs):
     return f
 
 
+def hp_drift(scripts, traces):
+    """Conformance of the real hash parser with HP.tla: the model predicts n and
+    the sequences of every call of its histories (real hash slots, see
+    HPHash.tla). A difference is DRIFT (the model must be updated or the code
+    changed behaviour within the envelope), not a violation."""
+    compared = bad = 0
+    first = None
+    for sc in scripts:
+        if 'hp-model' not in sc.get('tags', []) or sc['cfg'].get('kind') != 'HP':
+            continue
+        tr = traces.get(sc['tid'])
+        if not tr:
+            continue
+        evs = [e for e in tr[1][1:] if e['op'] != 'end']
+        for o, e in zip(sc['ops'], evs):
+            ex = o.get('expect')
+            if ex is None or e['op'] != o['op']:
+                break
+            compared += 1
+            ok = all(e.get(k) == v for k, v in ex.items() if k != 'seqs')
+            if 'seqs' in ex:
+                ok = ok and [list(x) for x in e.get('seqs', [])] == [list(x) for x in ex['seqs']]
+            if not ok:
+                bad += 1
+                first = first or dict(tid=sc['tid'], op=o['op'], predicted=ex,
+                                      recorded={k: e.get(k) for k in list(ex) if k in e})
+                break
+    return dict(compared=compared, disagreements=bad, first=first, model='HP.tla')
+
+
 def run_parser(ctx, fam):
     t = ctx.thorough()
     log('[%s] design model check (ParserBuffer design + abstract parser refine the ParserSM envelope)' % ctx.prop)
@@ -550,6 +586,18 @@ def run_parser(ctx, fam):
         for i, ops in enumerate(walks):
             kind = KINDS[i % len(KINDS)]
             scripts.append(parser_ops_to_script('parser-walk-%d-%d' % (ctx.seed, i), ops, kind, ['tlc-walk']))
+    if mix.get('hp'):
+        log('[%s] design model check + transition cover of HP.tla (hash parser with the real slot function)' % ctx.prop)
+        hist = vlib.tlc_cover(ctx, 'HP.tla', 'HP_T.cfg' if t else 'HP_q.cfg', limit=(6000 if t else mix['hp']),
+                              seed=ctx.seed, timeout=3000)
+        for i, ops in enumerate(hist):
+            begin = dict(ops[0])
+            begin.pop('op')
+            begin.pop('expect', None)
+            kind = 'HP' if i % 3 != 2 else 'BHP'      # BHP shares the dictionary (no prediction for it)
+            cfgd = dict(begin, kind=kind)
+            scripts.append(dict(tid='hp-cover-%d' % i, comp='parser', cfg=cfgd, ops=ops[1:], tags=['hp-model', kind]))
+        fam = dict(fam, _drift=hp_drift)
     for gen, n in mix.get('go', []):
         scripts += vlib.go_gen(ctx, gen, n * scale, ctx.seed)
     scripts += corpus_scripts('parser')
@@ -1042,7 +1090,7 @@ SUFFIX_ASSUME = [
     'recorded texts are <= 4096 bytes (<= 1500 in the quick tier; <= 700 for single runs, <= 600 for Segments): deep DivSufSort paths that need larger inputs with production thresholds are reached through the verif-tagged SortCfg hook only (informational DRIFT09 rules)',
 ]
 
-MIX_GENERAL = dict(walks=140, design=('GSAP.tla', 'GSAP_q.cfg', 'GSAP_m.cfg', 300), go=[('parser', 350), ('parser-runs', 49), ('parser-osap', 28), ('parser-cap', 28), ('parser-sa-ntl', 70)])
+MIX_GENERAL = dict(walks=140, hp=450, design=('GSAP.tla', 'GSAP_q.cfg', 'GSAP_m.cfg', 300), go=[('parser', 350), ('parser-runs', 49), ('parser-osap', 28), ('parser-cap', 28), ('parser-sa-ntl', 70)])
 
 def fam_dbuf(rule):
     return dict(run=run_dbuf, trace_module='DecoderBuf_Trace', rule=rule, assumptions=DBUF_ASSUME)
